@@ -69,6 +69,9 @@ fn gen_cfg(ctx: &Ctx, rng: &mut Rng, text_entries: bool) -> (Xcfg, comm::ScriptI
     // ... or from a process that has closed some of its own standard descriptors: the pipes of the exchange then get
     // the numbers 0..2 on the parent's side
     cfg.route.free_std = if rng.chance(150) { rng.range(1, 7) as u8 } else { 0 };
+    // a signal handler of the caller may interrupt the parent's poll/read/write: the exchange then fails with
+    // Interrupted (an honest outcome) - it never returns a shortened result as if it had completed
+    cfg.eintr_permille = if rng.chance(120) { 30 } else { 0 };
     if matches!(entry, Entry::Start | Entry::ExecCommunicate | Entry::PipelineCommunicate) && rng.chance(250) {
         let far = *rng.pick(&[30u64 * 86400, 365 * 86400, 50 * 365 * 86400]);
         cfg.chain = vec![comm::Limit { size: None, time: Some(std::time::Duration::from_secs(far)) }];
@@ -174,6 +177,16 @@ fn judge_c02(ctx: &mut Ctx, cfg: &Xcfg, si: &comm::ScriptInfo, x: &Xres) {
     if aborted {
         // the monitor ended a runaway exchange (C01's matter); what C02 can still say: was end-of-file ever sent?
         eof_order_check(ctx, cfg, x, &w);
+        return;
+    }
+    if x.reads.iter().any(|r| !r.ok && r.err_kind == Some(ErrorKind::Interrupted)) && cfg.eintr_permille > 0 {
+        ctx.count("exchanges_ended_by_an_injected_interruption(honest error, not judged further)", 1);
+        // what the error carries must still be a prefix of what the child wrote
+        if let Some(o) = &r.out {
+            if !cfg.err_merge && !matches!(cfg.entry, Entry::PipelineCapture | Entry::PipelineCommunicate) && pat_vec(cfg.seed, 1, 0, o.len()) != *o {
+                ctx.violation("C02/capture-on-error-not-a-prefix", "output carried by the Interrupted error is not a prefix of what the child wrote", w(J::Null));
+            }
+        }
         return;
     }
     if !r.ok {
